@@ -4,6 +4,7 @@
    Definitions only (lemmas: Proofs/VtiP.v). *)
 From Coq Require Import ZArith QArith Qabs List Bool.
 From Pymoto Require Import Base.Cmp Base.Bytes Model.Grid Model.B64.
+From Pymoto Require Export Model.Fs.
 Import ListNotations.
 Open Scope Z_scope.
 
@@ -174,11 +175,7 @@ Definition vti_filename (fn : str) : str :=
 
 (* ---- WriteToVTI ---- *)
 (* data = {}; for s in sig_in: data[s.tag] = s.state   (a repeated tag keeps its first position, takes the last value) *)
-Fixpoint dict_set {A} (d : list (str * A)) (k : str) (v : A) : list (str * A) :=
-  match d with
-  | [] => [(k, v)]
-  | (k', v') :: t => if Zl_eqb k' k then (k', v) :: t else (k', v') :: dict_set t k v
-  end.
+(* dict_set: Model/Fs.v *)
 Definition dict_of (sigs : list vec) : list vec :=
   map (fun kv => (fst kv, fst (snd kv), snd (snd kv)))
       (fold_left (fun d v => dict_set d (vkey v) (vshape v, vwords v)) sigs []).
@@ -206,6 +203,79 @@ Fixpoint wvti_run (g : grid) (saveto : str) (overwrite : bool) (origin_s spacing
     | Err e => Err e
     | Ok None => wvti_run g saveto overwrite origin_s spacing_s (it + 1) rest fs
     | Ok (Some (name, bytes)) => wvti_run g saveto overwrite origin_s spacing_s (it + 1) rest (dict_set fs name bytes)
+    end
+  end.
+
+(* ---- WriteToVTI on a file system with ANY previous content (Model/Fs.v); several module instances ---- *)
+Record vmod := mkVM { vm_grid : grid; vm_saveto : str; vm_overwrite : bool; vm_origin_s : list str;
+                      vm_spacing_s : list str; vm_iter : Z }.
+
+(* _prepare: Path(saveto).parent.mkdir(parents=True, exist_ok=True); self.iter = 0 *)
+Definition wvti_new (fs : fsys) (g : grid) (saveto : str) (overwrite : bool) (origin_s spacing_s : list str) : res vmod :=
+  match mkdir_parents fs saveto with
+  | Err e => Err e
+  | Ok _ => Ok (mkVM g saveto overwrite origin_s spacing_s 0)
+  end.
+
+Definition vm_response (m : vmod) (sigs : list vec) : res (option (str * str)) :=
+  wvti_response (vm_grid m) (vm_saveto m) (vm_overwrite m) (vm_origin_s m) (vm_spacing_s m) (vm_iter m) sigs.
+Definition vm_next (m : vmod) : vmod :=
+  mkVM (vm_grid m) (vm_saveto m) (vm_overwrite m) (vm_origin_s m) (vm_spacing_s m) (vm_iter m + 1).
+
+(* _response: write_to_vti opens the file with "wb" (previous content is gone), then self.iter += 1; when there is
+   nothing to write no file is touched but the iteration is counted *)
+Definition wvti_step (fs : fsys) (m : vmod) (sigs : list vec) : res (fsys * vmod) :=
+  match vm_response m sigs with
+  | Err e => Err e
+  | Ok None => Ok (fs, vm_next m)
+  | Ok (Some (name, bytes)) => Ok (fs_open_w fs name bytes, vm_next m)
+  end.
+
+(* a history of calls of ONE module instance without interference *)
+Fixpoint wvti_fs_run (fs : fsys) (m : vmod) (calls : list (list vec)) : res (fsys * vmod) :=
+  match calls with
+  | [] => Ok (fs, m)
+  | c :: rest => match wvti_step fs m c with Err e => Err e | Ok (fs', m') => wvti_fs_run fs' m' rest end
+  end.
+
+(* histories of events: module instances are created (numbered 0, 1, .. in order of creation) and called in any
+   interleaving; the environment writes and removes files in between *)
+Inductive vevent :=
+| VNew (g : grid) (saveto : str) (overwrite : bool) (origin_s spacing_s : list str)
+| VCall (id : nat) (sigs : list vec)
+| VWrite (name content : str)
+| VRemove (name : str).
+
+Fixpoint set_nth {A} (l : list A) (k : nat) (x : A) : list A :=
+  match l, k with
+  | [], _ => []
+  | _ :: t, O => x :: t
+  | y :: t, S k' => y :: set_nth t k' x
+  end.
+
+Definition vworld := (fsys * list vmod)%type.
+Definition wvti_event (w : vworld) (e : vevent) : res vworld :=
+  let (fs, mods) := w in
+  match e with
+  | VNew g saveto ow os ss =>
+    match wvti_new fs g saveto ow os ss with Err x => Err x | Ok m => Ok (fs, mods ++ [m]) end
+  | VCall id sigs =>
+    match nth_error mods id with
+    | None => Err OtherError
+    | Some m => match wvti_step fs m sigs with Err x => Err x | Ok (fs', m') => Ok (fs', set_nth mods id m') end
+    end
+  | VWrite name content => Ok (fs_open_w fs name content, mods)
+  | VRemove name => Ok (fs_remove fs name, mods)
+  end.
+
+(* the file system after every event; the history stops at the first exception, whose class is reported (0: none) *)
+Fixpoint wvti_trace (w : vworld) (events : list vevent) : list fsys * Z :=
+  match events with
+  | [] => ([], 0)
+  | e :: rest =>
+    match wvti_event w e with
+    | Err x => ([], exn_code x)
+    | Ok w' => let (tr, code) := wvti_trace w' rest in (fst w' :: tr, code)
     end
   end.
 
